@@ -54,6 +54,9 @@ func (p *PaymentDetails) ResetAdvances() {
 
 func (p *PaymentDetails) calculateAdvances(zero num.Amount, totalWithTax num.Amount) {
 	for _, a := range p.Advances {
+		if a == nil {
+			continue
+		}
 		a.CalculateFrom(totalWithTax)
 		a.Amount = a.Amount.MatchPrecision(zero)
 	}
@@ -65,6 +68,9 @@ func (p *PaymentDetails) totalAdvance(zero num.Amount) *num.Amount {
 	}
 	sum := zero
 	for _, a := range p.Advances {
+		if a == nil {
+			continue
+		}
 		sum = sum.MatchPrecision(a.Amount)
 		sum = sum.Add(a.Amount)
 		a.Amount = a.Amount.Rescale(zero.Exp())
